@@ -1,3 +1,4 @@
+import Gomjml.Gen.LengthSites
 import Gomjml.Core.Widths
 /-! # C10 — width flow: boxes nest and Outlook pixel widths match the responsive layout (property theorems only)
 
@@ -98,5 +99,42 @@ example : groupPx 480 2 (.pct 60 1) = 288 ∧ groupChildPx 288 2 (.pct 25 1) = 7
 example : (0 : Int) ≤ blockW ⟨600, none, .sec ⟨0, 0, 0, 0⟩ []⟩ ∧ Item.Sane (.col ⟨.pct 40 1, ⟨0, 0, 0, 0⟩, .other⟩) := by
   refine ⟨by decide, ?_⟩
   simp [Item.Sane, ColW.Sane]
+
+/-- **where an authored length becomes a number** (regenerated): every call, outside package `styles`, of a `styles` length
+    parser or of a `strconv` / `Sscan` number parser, by function and number of calls.  The width computations of section,
+    wrapper, hero and column read the padding shorthand through `ParseHorizontalSpacing` (one to four values); a width computed
+    through a parser of its own, which understands fewer spellings, is a new row here -/
+theorem C10_length_sites :
+    Gomjml.Gen.LengthSites.lengthSites = [
+      ("mjml/components.(*BaseComponent).GetAttributeAsPixel", "styles.ParsePixel", "1"),
+      ("mjml/components.(*BaseComponent).GetAttributeAsSpacing", "styles.ParseSpacing", "1"),
+      ("mjml/components.(*MJBodyComponent).GetEffectiveWidth", "styles.ParseSize", "1"),
+      ("mjml/components.(*MJBodyComponent).GetEffectiveWidthString", "styles.ParseSize", "1"),
+      ("mjml/components.(*MJButtonComponent).calculateInnerWidth", "strconv.Atoi", "2"),
+      ("mjml/components.(*MJColumnComponent).GetParsedWidth", "styles.ParseSize", "1"),
+      ("mjml/components.(*MJColumnComponent).calculateEffectiveContentWidth", "strconv.Atoi", "1"),
+      ("mjml/components.(*MJColumnComponent).calculateEffectiveContentWidth", "styles.ParseBorderWidth", "3"),
+      ("mjml/components.(*MJColumnComponent).calculateEffectiveContentWidth", "styles.ParseHorizontalSpacing", "1"),
+      ("mjml/components.(*MJColumnComponent).calculateEffectiveContentWidth", "styles.ParsePixel", "2"),
+      ("mjml/components.(*MJColumnComponent).parsePaddingLeftRight", "strconv.Atoi", "2"),
+      ("mjml/components.(*MJDividerComponent).Render", "styles.ParsePixel", "2"),
+      ("mjml/components.(*MJDividerComponent).Render", "styles.ParseSize", "1"),
+      ("mjml/components.(*MJDividerComponent).parseDividerPaddingLeftRight", "styles.ParsePixel", "1"),
+      ("mjml/components.(*MJGroupComponent).GetWidthClass", "fmt.Sscanf", "2"),
+      ("mjml/components.(*MJGroupComponent).Render", "fmt.Sscanf", "2"),
+      ("mjml/components.(*MJHeroComponent).Render", "styles.ParseHorizontalSpacing", "1"),
+      ("mjml/components.(*MJHeroComponent).Render", "styles.ParsePixel", "2"),
+      ("mjml/components.(*MJHeroComponent).calculateEffectiveHeight", "fmt.Sscanf", "4"),
+      ("mjml/components.(*MJImageComponent).Render", "styles.ParsePixel", "2"),
+      ("mjml/components.(*MJImageComponent).calculateDefaultWidth", "styles.ParseBorderWidth", "1"),
+      ("mjml/components.(*MJImageComponent).calculateDefaultWidth", "styles.ParsePixel", "3"),
+      ("mjml/components.(*MJImageComponent).calculateDefaultWidth", "styles.ParseSpacing", "1"),
+      ("mjml/components.(*MJSectionComponent).getInnerContentWidth", "styles.ParseBorderWidth", "3"),
+      ("mjml/components.(*MJSectionComponent).getInnerContentWidth", "styles.ParseHorizontalSpacing", "1"),
+      ("mjml/components.(*MJSectionComponent).getInnerContentWidth", "styles.ParsePixel", "2"),
+      ("mjml/components.(*MJWrapperComponent).getBorderLRWidths", "styles.ParseBorderWidth", "3"),
+      ("mjml/components.(*MJWrapperComponent).getEffectiveWidth", "styles.ParseHorizontalSpacing", "3"),
+      ("mjml/components.(*MJWrapperComponent).getEffectiveWidth", "styles.ParsePixel", "2"),
+      ("mjml/components.computeVMLPosition", "strconv.ParseFloat", "1")] := by decide
 
 end Gomjml.Props.C10
